@@ -7,7 +7,7 @@ SEED = [0]
 
 def jobs(tier):
     m = ("strict", "warn")
-    return D.g_pump(m) + D.g_leaf(("strict",), deep=0) + [j for j in D.g_frames(("strict",)) if j[0].__name__ == "unit_stream"] + D.g_crosscheck(tier, SEED[0], only_frames=True) + D.g_dispatch(("strict",))
+    return D.g_pump(m) + D.g_leaf(("strict",), deep=0) + [j for j in D.g_frames(("strict",)) if j[0].__name__ == "unit_stream"] + D.g_crosscheck(tier, SEED[0]) + D.g_dispatch(("strict",))
 
 
 def keep(name, ob):
